@@ -90,7 +90,7 @@ void h_pow2(void) { CE();
 #undef X
   VF_REACH(); }
 
-/*@GROUP name=rot props=C14,C02 kind=K unwind=66@*/
+/*@GROUP name=rot props=C14,C13,C02 kind=K unwind=66@*/
 void h_rot(void) { VF_INPUT(int, s);
 #define X(T, W) VF_INPUT(T, x_##T); VF_ASSERT(rotl_##T(x_##T, s) == (T)s_rotl(x_##T, s, W), "rotl<" #T ">(x,s): bit i moves to (i+s) mod width, any int s incl. negative and >= width"); \
                 VF_ASSERT(rotr_##T(x_##T, s) == (T)s_rotl(x_##T, -(long long)s, W), "rotr<" #T ">(x,s) == rotl(x,-s)");
@@ -98,7 +98,7 @@ void h_rot(void) { VF_INPUT(int, s);
 #undef X
   VF_REACH(); }
 
-/*@GROUP name=bitops props=C14,C02 kind=F@*/
+/*@GROUP name=bitops props=C14,C13,C02 kind=F@*/
 void h_bitops(void) { VF_INPUT_BOOL(v);
 #define X(T, W) VF_INPUT(T, w_##T); VF_INPUT(T, p_##T); __CPROVER_assume(p_##T < W); { T w = w_##T, p = p_##T; T m = (T)((T)1 << p); \
     VF_ASSERT(set_bit_##T(w, p) == (T)(w | m), "set_bit<" #T ">: bit p set, every other bit unchanged"); \
@@ -136,7 +136,7 @@ void h_add_sat(void) {
 #undef X
   VF_REACH(); }
 
-/*@GROUP name=div_sat props=C14,C02 kind=F@*/
+/*@GROUP name=div_sat props=C14,C13,C02 kind=F@*/
 void h_div_sat(void) {   /* 8-bit: every (x, y) pair */
   VF_INPUT(u8, x); VF_INPUT(u8, y); __CPROVER_assume(y != 0); VF_ASSERT(div_sat_u8(x, y) == (u8)(x / y), "div_sat<u8> == x / y");
   VF_INPUT(i8, a); VF_INPUT(i8, b); __CPROVER_assume(b != 0); VF_ASSERT(div_sat_i8(a, b) == (i8)((a == -128 && b == -1) ? 127 : a / b), "div_sat<i8> == x / y, MIN / -1 saturates to MAX");
@@ -153,7 +153,7 @@ void h_div_sat_w(void) {  /* wider types: a second symbolic divider of the same 
 #undef X
   VF_REACH(); }
 
-/*@GROUP name=midpoint props=C14,C02 kind=F@*/
+/*@GROUP name=midpoint props=C14,C13,C02 kind=F@*/
 void h_midpoint(void) {
 #define X(T, W) VF_INPUT(T, a_##T); VF_INPUT(T, b_##T); { vf_i128 d = (vf_i128)b_##T - (vf_i128)a_##T; \
     VF_ASSERT((vf_i128)midpoint_##T(a_##T, b_##T) == (vf_i128)a_##T + d / 2, "midpoint<" #T "> == a + (b-a)/2 rounded towards a, no overflow"); }
@@ -167,7 +167,7 @@ void h_midpoint_ptr(void) { VF_INPUT(u8, i); VF_INPUT(u8, j); VF_INPUT_ARR(int, 
   VF_ASSERT(m == &arr[0] + ((int)i + ((int)j - (int)i) / 2), "midpoint(pointer) == a + (b-a)/2 rounded towards a");
   VF_REACH(); }
 
-/*@GROUP name=abs props=C14,C02 kind=F@*/
+/*@GROUP name=abs props=C14,C13,C02 kind=F@*/
 void h_abs(void) {
 #define X(T, W) VF_INPUT(T, x_##T); __CPROVER_assume(x_##T != (T)SMIN(W)); VF_ASSERT(nabs_##T(x_##T) == (T)(x_##T < 0 ? -x_##T : x_##T), "abs<" #T "> == |x| (x != MIN)");
   SGN(X)
@@ -180,7 +180,7 @@ void h_abs(void) {
   VF_INPUT(long long, c); __CPROVER_assume(c != (long long)SMIN(64)); VF_ASSERT(abs_llong(c) == (c < 0 ? -c : c), "abs(long long)");
   VF_REACH(); }
 
-/*@GROUP name=idiv props=C14,C02 kind=F@*/
+/*@GROUP name=idiv props=C14,C13,C02 kind=F@*/
 void h_idiv(void) {   /* 8-bit: every (x, y) pair */
   VF_INPUT(u8, x); VF_INPUT(u8, y); __CPROVER_assume(y != 0); { u8 q, r; idiv_u8(x, y, &q, &r); VF_ASSERT(q == (u8)(x / y) && r == (u8)(x % y), "idiv<u8> == {x / y, x % y}"); }
   VF_INPUT(i8, a); VF_INPUT(i8, b); __CPROVER_assume(b != 0 && !(a == -128 && b == -1)); { i8 q, r; idiv_i8(a, b, &q, &r); VF_ASSERT(q == (i8)(a / b) && r == (i8)(a % b), "idiv<i8> == {x / y, x % y} (truncation, remainder has the sign of x)"); }
@@ -210,14 +210,14 @@ void h_idiv_limits(void) { VF_INPUT_BOOL(neg); VF_INPUT_BOOL(lo);
 #undef X
   VF_REACH(); }
 
-/*@GROUP name=ilog2 props=C14,C02 kind=K unwind=66@*/
+/*@GROUP name=ilog2 props=C14,C13,C02 kind=K unwind=66@*/
 void h_ilog2(void) {
 #define X(T, W) VF_INPUT(T, x_##T); __CPROVER_assume(x_##T >= 1); VF_ASSERT((int)ilog2_##T(x_##T) == W - 1 - s_clz((u64)x_##T & MASK(W), W), "ilog2<" #T "> == floor(log2 x) for x >= 1");
   UNS(X) SGN(X)
 #undef X
   VF_REACH(); }
 
-/*@GROUP name=ipow8 props=C14,C02 kind=K unwind=10@*/
+/*@GROUP name=ipow8 props=C14,C13,C02 kind=K unwind=10@*/
 void h_ipow8(void) {
   /* exact result representable: checked in 128 bits; exponent small enough to unwind completely for 8-bit results */
 #define X(T, W, LO, HI) VF_INPUT(T, b_##T); VF_INPUT(T, e_##T); __CPROVER_assume(e_##T >= 0 && e_##T <= 8); { vf_i128 r = 1; _Bool fits = 1; \
@@ -228,6 +228,20 @@ void h_ipow8(void) {
   VF_INPUT(u8, e2); __CPROVER_assume(e2 < 8); VF_ASSERT(ipow2_u8(e2) == (u8)(1u << e2), "ipow<2>(e) == 2^e");
   VF_INPUT(u32, e3); __CPROVER_assume(e3 < 32); VF_ASSERT(ipow2_u32(e3) == (1u << e3), "ipow<2>(e) == 2^e (u32)");
   VF_INPUT(u64, e4); __CPROVER_assume(e4 < 64); VF_ASSERT(ipow2_u64(e4) == (1ULL << e4), "ipow<2>(e) == 2^e (u64)");
+  VF_REACH(); }
+
+/* ipow<Base>(e) with the base as a template argument: every base must agree with the run-time ipow(Base, e) = Base^e (the Base == 2
+ * shift path is only one of them) */
+/*@GROUP name=ipow_tbase props=C14,C13,C02 kind=K unwind=34@*/
+void h_ipow_tbase(void) { VF_INPUT(u8, e); VF_INPUT(u32, f); __CPROVER_assume(e <= 7 && f <= 31);
+#define PW(b, x, T) ({ T r_ = 1; for (unsigned i_ = 0; i_ < 32; ++i_) if (i_ < (x)) r_ = (T)(r_ * (T)(b)); r_; })
+  VF_ASSERT(ipow0_u8(e) == (u8)(e == 0 ? 1 : 0) && ipow0_u32(f) == (f == 0 ? 1u : 0u) && ipow0_i32((i32)f) == (f == 0 ? 1 : 0), "ipow<0>(e) == 0^e (1 for e == 0)");
+  VF_ASSERT(ipow1_u8(e) == 1 && ipow1_u32(f) == 1u && ipow1_i32((i32)f) == 1, "ipow<1>(e) == 1");
+  if (e <= 5) VF_ASSERT(ipow3_u8(e) == PW(3, e, u8), "ipow<3>(e) == 3^e (u8)");
+  if (f <= 20) VF_ASSERT(ipow3_u32(f) == PW(3, f, u32), "ipow<3>(e) == 3^e (u32)");
+  if (e <= 3) VF_ASSERT(ipow4_u8(e) == PW(4, e, u8), "ipow<4>(e) == 4^e (u8)");
+  if (f <= 15) VF_ASSERT(ipow4_u32(f) == PW(4, f, u32), "ipow<4>(e) == 4^e (u32)");
+  if (f <= 9) VF_ASSERT(ipow10_u32(f) == PW(10, f, u32) && ipow10_i32((i32)f) == (i32)PW(10, f, u32), "ipow<10>(e) == 10^e");
   VF_REACH(); }
 
 /*@GROUP name=gcd_u8 props=C14,C02 kind=K unwind=260 cost=8 timeout=600@*/
@@ -250,7 +264,7 @@ void h_lcm_u8(void) { VF_INPUT(u8, m); VF_INPUT(u8, n);
   if (m != 0 && n != 0) VF_ASSERT(lcm_u8(m, n) == (u8)e, "lcm<u8> == least common multiple when representable");
   VF_REACH(); }
 
-/*@GROUP name=intcmp props=C14,C02 kind=F@*/
+/*@GROUP name=intcmp props=C14,C13,C02 kind=F@*/
 void h_intcmp(void) {
 #define X(A, B) VF_INPUT(A, a_##A##_##B); VF_INPUT(B, b_##A##_##B); { vf_i128 a = (vf_i128)a_##A##_##B, b = (vf_i128)b_##A##_##B; \
     VF_ASSERT(cmp_equal_##A##_##B(a_##A##_##B, b_##A##_##B) == (a == b), "cmp_equal<" #A "," #B "> compares mathematical values"); \
@@ -263,7 +277,7 @@ void h_intcmp(void) {
 #undef X
   VF_REACH(); }
 
-/*@GROUP name=saturate_cast props=C14,C02 kind=F@*/
+/*@GROUP name=saturate_cast props=C14,C13,C02 kind=F@*/
 void h_saturate_cast(void) {
 #define X(A, B) VF_INPUT(A, a_##A##_##B); { vf_i128 a = (vf_i128)a_##A##_##B; vf_i128 e = CLAMP(a, LIM_##B##_LO, LIM_##B##_HI); \
     VF_ASSERT((vf_i128)saturate_cast_##A##_##B(a_##A##_##B) == e, "saturate_cast<" #B ">(" #A ") == value clamped to the target range"); \
